@@ -29,6 +29,7 @@ def errName : Err → String
   | .protocolEvent => "ProtocolEventError"
   | .simultaneous => "SimultaneousProtocolEventError"
   | .nonFinite => "nonFinite"
+  | .keyError => "KeyError"
 
 def eventVal (e : Event) : Val :=
   .list [ratVal e.level, ratVal e.start, ratVal e.duration, ratVal e.period, .int e.multiplier]
@@ -147,8 +148,49 @@ def setData : Op
         .list [.str label, .list (evs.map eventVal)]))]
   | _ => none
 
+def regimensVal (r : List (String × List Event)) : Val :=
+  .list (r.map (fun (label, evs) => .list [.str label, .list (evs.map eventVal)]))
+
+/-- `C10.frame default_duration rows` with rows `[row_label id time|n dose|n duration|n]` (the whole
+    frame, in frame order, any row labels) → the regimens `set_data` derives -/
+def frame : Op
+  | [dv, rv] => do
+    let dflt ← Val.rat? dv
+    let rl ← rv.list?
+    let fr ← rl.mapM (fun r => match r with
+      | .list [.int l, .str id, t, a, d] => do
+        some (⟨l, id, ⟨← Val.opt? Val.rat? t, ← Val.opt? Val.rat? a, ← Val.opt? Val.rat? d⟩⟩ :
+          FrameRow)
+      | _ => none)
+    match frameRegimens dflt fr with
+    | .error e => some [errVal (errName e)]
+    | .ok none => some [.str "ok", .none]
+    | .ok (some r) => some [.str "ok", regimensVal r]
+  | _ => none
+
+def parseRegimens (v : Val) : Option (List (String × List Event)) := do
+  let l ← v.list?
+  l.mapM (fun x => match x with
+    | .list [.str label, evs] => do some (label, ← parseEvents evs)
+    | _ => none)
+
+/-- `C10.likelihoods regimens|n own|n ids`: the regimens the controller holds, the events of the
+    regimen its mechanistic model was created with, the individuals of one `get_log_posterior` call
+    → per individual the events its likelihood simulates with (`n` = never dosed) -/
+def likelihoods : Op
+  | [rv, ov, iv] => do
+    let regs ← Val.opt? parseRegimens rv
+    let own ← Val.opt? parseEvents ov
+    let ids ← (← iv.list?).mapM Val.str?
+    match likelihoodRegimens regs own ids with
+    | .error e => some [errVal (errName e)]
+    | .ok out => some [.str "ok", .list (out.map (fun (id, reg) =>
+        .list [.str id, match reg with | none => .none | some evs => .list (evs.map eventVal)]))]
+  | _ => none
+
 def ops : List (String × Op) :=
   [("C10.event", event), ("C10.pace", paceOp), ("C10.pacemulti", paceMultiOp),
-   ("C10.table", table), ("C10.rows", rows), ("C10.setdata", setData), ("C10.surgery", surgery)]
+   ("C10.table", table), ("C10.rows", rows), ("C10.setdata", setData), ("C10.surgery", surgery),
+   ("C10.frame", frame), ("C10.likelihoods", likelihoods)]
 
 end ChiDriver.C10
